@@ -10,6 +10,8 @@ Optional F=<position>,<size> and AX=<axis> = initial position/size/axis argument
 Answer:  wf=<0|1> fl=<0|1: T = flatten X> ty=<path|num|bool|none>
          R=<ctx>:<model>:<spec|NA>:<inK>:<item,axis,pos,size left in the caller's context (evalS)>:<evalS value = eval value>:<evaluate() 1.0/2.0>:<evaluate() 3.0/3.1>|...   (L = list, I = single node)
 value = N<i>,<i>,... | B0 | B1 | #<k> | ERR;  inK = 0 (no finding triggers left)
+Phase 5: SE=<sequence expression> instead of E=:  sexpr = b <expr> | cm S S (`(l, r)`) | bg S S (`l ! r`) | ssl S <expr> (`(l)/r`) | sf S <expr> (`(l)[p]`) | sn S <expr> (`l/r`, r number-valued)
+Answer:  wf= fl= sty=<nodes|items|none> R=<ctx>:<seval>:<ssem>|...   sequence = Q<item>,<item>… (item n<i> | #<k>) | ERR
 -/
 import EPV.Proto
 import EPV.Spec.XPath1Paths
@@ -17,6 +19,7 @@ import EPV.Model.AxesTree
 import EPV.Model.AxesState
 import EPV.Model.AxesEvalState
 import EPV.Model.AxesEvaluate
+import EPV.Spec.AxesSeqOps
 open EPV.Proto EPV.XP
 
 def parseKind : String → Option Kind
@@ -208,6 +211,39 @@ def answerExpr (line : String) (m : Mode) (a : Arr) (e : Expr) : String :=
     s!"{c}:{showVal mv}:{if ax0.isSome then "NA" else showVal sv}:{k}:{fin}:{same}:{showPy (evaluate false m a e f)}:{showPy (evaluate true m a e f)}"
   s!"wf={if wf then 1 else 0} fl={if fl then 1 else 0} ty={tyS} R={"|".intercalate outs}"
 
+/-! phase 5: sequence expressions (`,` `!`) -/
+partial def parseSE : List String → Option (SExpr × List String)
+  | "b" :: rest => do let (e, rest) ← parseE rest; pure (.base e, rest)
+  | "cm" :: rest => do
+    let (l, rest) ← parseSE rest; let (r, rest) ← parseSE rest; pure (.comma l r, rest)
+  | "bg" :: rest => do
+    let (l, rest) ← parseSE rest; let (r, rest) ← parseSE rest; pure (.bang l r, rest)
+  | "ssl" :: rest => do
+    let (l, rest) ← parseSE rest; let (r, rest) ← parseE rest; pure (.slash l r, rest)
+  | "sn" :: rest => do
+    let (l, rest) ← parseSE rest; let (r, rest) ← parseE rest; pure (.slashNum l r, rest)
+  | "sf" :: rest => do
+    let (l, rest) ← parseSE rest; let (p, rest) ← parseE rest; pure (.filter l p, rest)
+  | _ => none
+
+def showSeq : Option (List Item) → String
+  | some l => "Q" ++ ",".intercalate (l.map fun i => match i with | .node n => s!"n{n}" | .num k => s!"#{k}")
+  | none => "ERR"
+
+def answerSeq (line : String) (m : Mode) (a : Arr) (e : SExpr) : String :=
+  let fs := fields line
+  let wf := wfArr m a
+  let fl := match parseRoot ((field fs "X").splitOn "~") with
+    | some r => decide (r.flatten = a) && decide (r.mode = m)
+    | none => false
+  let tyS := match sty e with | some true => "nodes" | some false => "items" | none => "none"
+  let cs := field fs "C"
+  let ctxs : List Nat := if cs == "*" then List.range a.length else (cs.splitOn ",").filterMap nat?
+  let outs := ctxs.map fun c =>
+    let f : Focus := ⟨c, 1, 1⟩
+    s!"{c}:{showSeq (seval m a e f)}:{showSeq (Spec.ssem m a e f)}"
+  s!"wf={if wf then 1 else 0} fl={if fl then 1 else 0} sty={tyS} R={"|".intercalate outs}"
+
 def answer (line : String) : String :=
   let fs := fields line
   match parseMode (field fs "M"), ((field fs "T").splitOn ";").mapM parseRec with
@@ -216,6 +252,10 @@ def answer (line : String) : String :=
       let cs := field (fields line) "C"
       let ctxs : List Nat := if cs == "*" then List.range a.length else (cs.splitOn ",").filterMap nat?
       s!"wf={if wfArr m a then 1 else 0} S={answerState m a ctxs}"
+    else if field (fields line) "SE" != "" then
+      match parseSE ((field (fields line) "SE").splitOn "~") with
+      | some (e, []) => answerSeq line m a e
+      | _ => "bad-sexpr"
     else match parseE ((field (fields line) "E").splitOn "~") with
     | some (e, []) => answerExpr line m a e
     | _ => "bad-expr"
